@@ -396,6 +396,65 @@ def elem_ptr_type(t):
         return '%s(*)%s' % (ctype(e), dims), True
     return ctype(t) + '*', False
 
+CUR_BODY = ['']
+EXTRA_TYPES = []
+def alloc_layout(dst, n):
+    """C type for a heap object of n bytes created in the current function, so that CBMC keeps one SSA symbol per field:
+    (1) the named struct the result is bitcast to, if its size is n; (2) a struct synthesised from the constant-offset typed
+    stores the function performs on the fresh object (fields where something is stored, byte padding elsewhere)"""
+    txt = CUR_BODY[0]
+    var = '%' + dst[2:] if dst.startswith('v_') else None
+    if var is None: return None
+    rv = re.escape(var)
+    m = re.search(r'= bitcast i8\* %s to (%%"[^"]*"|%%[-A-Za-z0-9_.$]+)\*' % rv, txt)
+    if m:
+        t = NAMED.get(m.group(1)[1:])
+        try:
+            if t is not None and t.fields and not t.opaque and size_of(t) == n: return cstruct_name(t)
+        except Exception: pass
+    # constant-offset views of the fresh object: %a = getelementptr inbounds i8, i8* %x, i64 K ; %b = bitcast i8* %a to T*
+    offs = {var: 0}
+    for gm in re.finditer(r'(%%[-A-Za-z0-9_.$]+) = getelementptr inbounds i8, i8\* %s, i64 (\d+)' % rv, txt): offs[gm.group(1)] = int(gm.group(2))
+    fields = {}
+    for v_, off in offs.items():
+        for bm in re.finditer(r'(%%[-A-Za-z0-9_.$]+) = bitcast i8\* %s to ([^\n]*?)\*\s*$' % re.escape(v_), txt, re.M):
+            try: ty, _ = parse_type(bm.group(2))
+            except Exception: continue
+            if isinstance(ty, (TInt, TPtr)) and off not in fields: fields[off] = ty
+        if re.search(r'store i8 [^,\n]*, i8\* %s\b' % re.escape(v_), txt) and off not in fields: fields[off] = TInt(8)
+    if not fields: return None
+    items = []; pos = 0
+    for off in sorted(fields):
+        ty = fields[off]; sz = size_of(ty)
+        if off < pos or off + sz > n or off % align_of(ty): return None
+        if off > pos: items.append('unsigned char pad%d[%d];' % (pos, off - pos))
+        items.append('%s f%d;' % (ctype(ty) if not isinstance(ty, TPtr) else 'char*', off)); pos = off + sz
+    if pos < n: items.append('unsigned char pad%d[%d];' % (pos, n - pos))
+    key = (n, ' '.join(items))
+    if key in LAYOUTS: return LAYOUTS[key]
+    name = 'struct H_%s%d' % (PFX, len(EXTRA_TYPES))
+    EXTRA_TYPES.append('%s { %s };\n_Static_assert(sizeof(%s) == %d, "heap layout");' % (name, ' '.join(items), name, n))
+    LAYOUTS[key] = name
+    return name
+LAYOUTS = {}
+CLONE_SIZES = set()
+HEAP_LAY = {}   # local var -> (layout name, size) of a clone-site allocation in the current function
+def clone_layout(dst, n):
+    """a fresh object that is immediately filled by a whole-object memcpy (boost::function's functor_manager clone): typed
+    with the layout shared by every synthesised layout of that size in this TU (resolved when the types are printed)"""
+    var = '%' + dst[2:] if dst.startswith('v_') else None
+    if var is None or n % 8: return None
+    if re.search(r'call void @llvm\.memcpy\.p0i8\.p0i8\.i64\(i8\* [^,]*%s, i8\* [^,]*, i64 %d, i1 false\)' % (re.escape(var), n), CUR_BODY[0]):
+        CLONE_SIZES.add(n); HEAP_LAY[dst] = ('struct HC_%s%d' % (PFX, n), n); return 'struct HC_%s%d' % (PFX, n)
+    return None
+def clone_types():
+    out = []
+    for n in sorted(CLONE_SIZES):
+        same = [k for k in LAYOUTS if k[0] == n]
+        body = same[0][1] if len(same) == 1 else 'char* w[%d];' % (n // 8)
+        out.append('struct HC_%s%d { %s };' % (PFX, n, body))
+    return out
+
 PTRISH = set()  # local i64 vars that flow into an inttoptr in the current function
 PTRINT = {}    # local i64 var -> pointer C expr it was derived from (ptrtoint), for tag-bit idioms
 PTRINFO = {}   # C expr string -> (root C expr, root LLVM type, constant byte offset): statically known typed origin of a pointer
@@ -641,6 +700,7 @@ def main():
     print('#include "ll2c_rt.h"')
     print('\n'.join('%s;' % cstruct_name(t) for t in NAMED.values()))
     print('\n'.join(out_types))
+    print('\n'.join(EXTRA_TYPES + clone_types()))
     print('\n'.join(out_proto))
     print('\n'.join(out_glob))
     if HAS_EH[0]: print('\n'.join(emit_eh_runtime()))
@@ -853,7 +913,9 @@ def translate_fn(fname, rty, ptys, pnames, byval, body):
     for k in [k for k in PTRINFO if k.startswith('v_')]: del PTRINFO[k]
     PTRINT.clear()
     PTRISH.clear()
+    HEAP_LAY.clear()
     txt = '\n'.join(body)
+    CUR_BODY[0] = txt
     for m_ in re.finditer(r'inttoptr i64 (%[-A-Za-z0-9_.$]+) to', txt): PTRISH.add(local_name(m_.group(1)))
     for m_ in re.finditer(r'(%[-A-Za-z0-9_.$]+) = and i64 (%[-A-Za-z0-9_.$]+), -2', txt):
         if local_name(m_.group(1)) in PTRISH: PTRISH.add(local_name(m_.group(2)))
@@ -1138,6 +1200,10 @@ def translate_call(s, dst, decls, goto, bl):
         elif n.startswith('llvm.memcpy') and const_idx(args[2]) is not None and args[0].c in PTRINFO and args[1].c in PTRINFO \
                 and typed_memcpy(PTRINFO[args[0].c], PTRINFO[args[1].c], const_idx(args[2])) is not None:
             return ['{ %s }' % ' '.join(typed_memcpy(PTRINFO[args[0].c], PTRINFO[args[1].c], const_idx(args[2])))]
+        elif n.startswith('llvm.memcpy') and args[0].c in HEAP_LAY and const_idx(args[2]) == HEAP_LAY[args[0].c][1]:
+            # whole-object copy into a clone-site allocation: one struct assignment, field by field for CBMC
+            lay = HEAP_LAY[args[0].c][0]
+            return ['*(%s*)%s = *(%s*)%s;' % (lay, args[0].c, lay, args[1].c)]
         elif (n.startswith('llvm.memcpy') or n.startswith('llvm.memmove')) and re.fullmatch(r'\(\(uint64_t\)(\d+)ULL\)', args[2].c) and int(re.fullmatch(r'\(\(uint64_t\)(\d+)ULL\)', args[2].c).group(1)) <= 128:
             nbytes = int(re.fullmatch(r'\(\(uint64_t\)(\d+)ULL\)', args[2].c).group(1))
             chunks = []; off = 0
@@ -1168,6 +1234,11 @@ def translate_call(s, dst, decls, goto, bl):
     else:
         if name == '@_Znwm' and dst:
             mm = re.fullmatch(r'\(\(uint64_t\)(\d+)ULL\)', args[0].c)
+            if mm and NEW_MODE == 'words' and 0 < int(mm.group(1)) <= 512:
+                lay = alloc_layout(dst, int(mm.group(1))) or clone_layout(dst, int(mm.group(1)))
+                if lay:
+                    decls[dst] = 'char*'
+                    return ['%s = (char*)malloc(sizeof(%s)); LL2C_ASSUME(%s != 0);' % (dst, lay, dst)]
             if mm and NEW_MODE == 'words' and int(mm.group(1)) % 8 == 0 and 0 < int(mm.group(1)) <= 512:
                 # heap objects the IR only touches through raw offsets (boost::bind functors, any holders): allocate them
                 # as an array of pointer-sized words, so that CBMC keeps one SSA symbol per word and a pointer stored in one
